@@ -2910,7 +2910,13 @@ primary_expression
         if ($1.type == EXPRESSION_TYPE_INTEGER &&
             $3.type == EXPRESSION_TYPE_INTEGER)
         {
-          if ($3.value.integer != 0)
+          if ($1.value.integer == INT64_MIN && $3.value.integer == -1)
+          {
+            // Not representable, the VM yields undefined in this case too.
+            $$.value.integer = YR_UNDEFINED;
+            $$.type = EXPRESSION_TYPE_INTEGER;
+          }
+          else if ($3.value.integer != 0)
           {
             $$.value.integer = OPERATION(/, $1.value.integer, $3.value.integer);
             $$.type = EXPRESSION_TYPE_INTEGER;
@@ -2934,7 +2940,13 @@ primary_expression
 
         fail_if_error(yr_parser_emit(yyscanner, OP_MOD, NULL));
 
-        if ($3.value.integer != 0)
+        if ($1.value.integer == INT64_MIN && $3.value.integer == -1)
+        {
+          // Not representable, the VM yields undefined in this case too.
+          $$.value.integer = YR_UNDEFINED;
+          $$.type = EXPRESSION_TYPE_INTEGER;
+        }
+        else if ($3.value.integer != 0)
         {
           $$.value.integer = OPERATION(%, $1.value.integer, $3.value.integer);
           $$.type = EXPRESSION_TYPE_INTEGER;
